@@ -110,6 +110,8 @@ pub fn run_word_at(c: &Case, virtual_now: Option<i128>) -> Run {
 
 /// turn the outcomes of one builder's operations into the observations the checkers judge (tokens are read back)
 pub fn observe(c: &Case, outs: Vec<Out<String>>, before: i128, after: i128) -> Run {
+    // a refused claim constructor contributes an entry of its own: it is not a build outcome
+    let outs: Vec<Out<String>> = outs.into_iter().filter(|o| !matches!(o, Out::Err(e) if e.starts_with("ClaimCtor/"))).collect();
     // one entry per Build (and one per failing claim constructor: none with our values)
     let mut builds = Vec::new();
     let mut footer: Option<String> = None;
@@ -208,6 +210,8 @@ fn model(ops: &[BOp]) -> Model {
     let mut m = Model { supplied: BTreeMap::new(), ack: false, exp_after_ack: false };
     for op in ops {
         match op {
+            // a custom claim under a reserved key cannot be constructed (C18): the call sequence skips it
+            BOp::Set(Claim::Custom(k, _)) if ["iss", "sub", "aud", "exp", "nbf", "iat", "jti"].contains(&k.as_str()) => {}
             BOp::Set(c) => {
                 if c.key() == "exp" && m.ack {
                     m.exp_after_ack = true;
@@ -464,6 +468,10 @@ fn sym_c13(i: usize, occ: usize) -> BOp {
         8 => BOp::Set(Claim::Custom("Exp".into(), json!(format!("custom-Exp-{}", occ)))),
         9 => BOp::Set(Claim::Custom("IAT".into(), json!(occ))),
         10 => BOp::Set(Claim::Custom("Nbf".into(), json!(format!("custom-Nbf-{}", occ)))),
+        // an ATTEMPT to shadow a time claim with a custom claim under its exact reserved name (both constructor forms are
+        // rotated by the harness): the constructor must refuse it, so it must leave no trace in the token
+        11 => BOp::Set(Claim::Custom("exp".into(), Value::Null)),
+        12 => BOp::Set(Claim::Custom("nbf".into(), json!(format!("not a date {}", occ)))),
         _ => BOp::Build,
     }
 }
@@ -549,7 +557,7 @@ pub fn run(prop: &str, tier: &str, seed: u64) -> Report {
         total.inconclusive.push("harness RFC 3339 parser self-test failed".into());
         return total;
     }
-    let (k, maxlen) = if prop == "C13" { (12usize, if thorough { 6 } else { 4 }) } else { (15usize, if thorough { 5 } else { 4 }) };
+    let (k, maxlen) = if prop == "C13" { (14usize, if thorough { 6 } else { 4 }) } else { (15usize, if thorough { 5 } else { 4 }) };
     // exhaustive words on v4.local
     let mut counts = Vec::new();
     let mut totalw = 0usize;
@@ -685,7 +693,12 @@ pub fn run(prop: &str, tier: &str, seed: u64) -> Report {
             vn.push((rng.next() % 221_000_000_000) as i128 * 1_000_000_000 + (rng.next() % 1_000_000_000) as i128);
         }
         vn.push(1_790_000_000_999_999_999);
-        let words: Vec<Vec<usize>> = vec![vec![], vec![3], vec![11, 11], vec![5], vec![1, 11, 0], vec![4, 11, 5]];
+        // the last hour of year 9999: now + 1 h is not representable.  Creation may refuse (the unchanged code panics in
+        // Default - no token, no verdict); a token that IS built must still carry exp == iat + 1 h exactly
+        for t in [253_402_297_199i128, 253_402_297_200, 253_402_297_201, 253_402_300_000, 253_402_300_799] {
+            vn.push(t * 1_000_000_000 + 250_000_000);
+        }
+        let words: Vec<Vec<usize>> = vec![vec![], vec![3], vec![13, 13], vec![5], vec![1, 13, 0], vec![4, 13, 5], vec![11, 12]];
         // Is the hook on the builder's path at all?  A builder created with the virtual clock at 2100-01-01 must not stamp
         // the REAL current time: if it does, the builder no longer consults the hooked time source (a refactoring) and the
         // instants below would be judged against real-clock defaults — skipped as inconclusive, never a violation.
@@ -708,6 +721,11 @@ pub fn run(prop: &str, tier: &str, seed: u64) -> Report {
             let p = [P::V4L, P::V4L, P::V2L, P::V4P, P::V3L, P::V1L][i % 6];
             let c = Case { p, key: pools.key(p, i % pools.count(p)), ops: syms_to_ops(prop, &words[i % words.len()]) };
             let run = run_word_at(&c, Some(vn[i]));
+            if run.builds.iter().any(|b| matches!(&b.out, Out::Err(e) if e.starts_with("BuilderCreation/"))) {
+                r.count("builder creation refused at the edge of the representable time range (no token, no verdict)");
+                r.see("builder creation refusals", &format!("virtual now {} s: {}", vn[i] / 1_000_000_000, run.builds[0].out.brief()));
+                return;
+            }
             let before = r.violations_total;
             check_c13(&c, &run, r);
             if r.violations_total == before {
@@ -757,5 +775,5 @@ pub fn replay_pair(prop: &str, case: &Value) -> Report {
     r
 }
 
-pub const RULE_C13: &str = "call words over {set exp, set nbf, set iat, set iss, set custom a, set custom 'Exp' / 'IAT' / 'Nbf' (custom claims that equal a time claim up to case), acknowledge, set_footer, set_implicit_assertion, build} (a final build is appended to words that do not end in one): ALL words up to length 4 (thorough 6) on v4.local, seeded random words up to length 12 on all 8 protocols; plus 614 (thorough 20014) builders created at instants of a VIRTUAL clock (hook verif::set_now: year/leap-day boundaries, 2^31 s, the i64-ns limit, up to year 8999, random, odd sub-second parts) whose defaults must be exactly (now+1h, now, now). Plus 3000 (thorough 40000) PAIRS of builders (same or different protocols) alive at once on one thread with their operations interleaved in a seeded order: each must behave exactly as if it were alone. Every token of every successful build (first and later builds of one builder) is read back and compared with a state machine written from the property: exp present iff not acknowledged; default exp == creation + 3600.000000000 s, default iat == default nbf within the clock bracket taken around the run (5 ms slack); caller-supplied exp/iat/nbf values present. distinct_nontrivial = distinct (protocol, word, build number) that built and conformed";
+pub const RULE_C13: &str = "call words over {set exp, set nbf, set iat, set iss, set custom a, set custom 'Exp' / 'IAT' / 'Nbf' (custom claims that equal a time claim up to case), an attempt to set a custom claim named exactly exp (null) or nbf (refused by the constructor in both forms: must leave no trace), acknowledge, set_footer, set_implicit_assertion, build} (a final build is appended to words that do not end in one): ALL words up to length 4 (thorough 6) on v4.local, seeded random words up to length 12 on all 8 protocols; plus 614 (thorough 20014) builders created at instants of a VIRTUAL clock (hook verif::set_now: year/leap-day boundaries, 2^31 s, the i64-ns limit, up to year 8999, random, odd sub-second parts) whose defaults must be exactly (now+1h, now, now). Plus 3000 (thorough 40000) PAIRS of builders (same or different protocols) alive at once on one thread with their operations interleaved in a seeded order: each must behave exactly as if it were alone. Every token of every successful build (first and later builds of one builder) is read back and compared with a state machine written from the property: exp present iff not acknowledged; default exp == creation + 3600.000000000 s, default iat == default nbf within the clock bracket taken around the run (5 ms slack); caller-supplied exp/iat/nbf values present. distinct_nontrivial = distinct (protocol, word, build number) that built and conformed";
 pub const RULE_C17: &str = "call words over {set_claim(k) for k in exp,nbf,iat,iss,sub,aud,jti,a,b,userId,Role,role; acknowledge; set_footer; build} (a final build appended): ALL words up to length 4 (thorough 5) on v4.local, seeded random words up to length 40 on all 8 protocols; 3000 (thorough 40000) PAIRS of builders (same or different protocols) alive at once on one thread with their operations interleaved in a seeded order, each judged as if alone; every occurrence of a setter uses a different value. Plus ~45 pairs of DIFFERENT custom keys that collide under FNV-1/1a, the 31-multiplier hash, djb2, CRC-32, byte sums, truncation (8..256 bytes, u8/u16 characters), NFC/NFD or an embedded NUL: setting both is not a repetition, setting one of them again is; 255/256/257/600 distinct keys on one builder, then one of them again. Model: once any key has been supplied twice every build must fail with the duplicate-claim error naming one of the duplicated keys; otherwise every build must succeed and carry the caller's values; exp supplied after the acknowledgement may be refused as duplicate or ignored. distinct_nontrivial = distinct (protocol, word, build number, outcome class)";
